@@ -2,7 +2,9 @@
 C19 — GNN layers compute the documented message passing and consistent gradients.
 Theorems about the model `SkNet/Model/Gnn.lean` instantiated at `ℝ` (`SkNet/Lemmas/GnnReal.lean`).
 -/
-import SkNet.Lemmas.GnnForward
+import SkNet.Lemmas.GnnLossModel
+import SkNet.Lemmas.GnnPredict
+import SkNet.Lemmas.GnnEquiv
 
 namespace SkNet.C19
 open SkNet SkNet.Gnn SkNet.Gnn.Mat Finset
@@ -76,5 +78,159 @@ theorem forward_rectangular_error (cfg : LayerCfg) (n m : Nat) (hnm : n ≠ m) (
   · rfl
   · simp only [mk'_c, rowSums, pinvDiag, mk'_r, tab_length]
     exact fun h => hnm h.symm
+
+theorem forward_rectangular_error_both (cfg : LayerCfg) (n m : Nat) (hnm : n ≠ m) (a : Nat → Nat → ℝ) (X W : Mat ℝ)
+    (b : Option (List ℝ)) (h : cfg.norm = .both) :
+    forward cfg (mk' n m a) X W b = .error .valueError := by
+  unfold forward Gnn.normalize
+  rw [h]
+  simp only [bind, Except.bind]
+  rw [rowSums_mk', tab_map, pinvDiag_tab, diag_mul]
+  simp only []
+  rw [matmul_dim_error]
+  simp only [mk'_c, mk'_r]
+  exact fun h => hnm h.symm
+
+/-- **forward_equivariant.** Renumbering the nodes permutes the rows of the output: for every renumbering `p` of
+the `n` nodes, the layer applied to `(P A Pᵀ, P X)` returns row `i` = row `p i` of the layer applied to `(A, X)`,
+for every normalisation, self-embedding flag, activation and bias. -/
+theorem forward_equivariant (cfg : LayerCfg) (n d c : Nat) (a x w : Nat → Nat → ℝ) (b : Option (List ℝ))
+    (hb : ∀ bl, b = some bl → bl.length = c) (p : Nat → Nat) (hp : IsRenumbering n p) :
+    forward cfg (mk' n n fun i j => a (p i) (p j)) (mk' n d fun i l => x (p i) l) (mk' d c w) b =
+      (forward cfg (mk' n n a) (mk' n d x) (mk' d c w) b).map fun O => mk' n c fun i k => O.get (p i) k := by
+  rw [forward_eq_def cfg n n d c _ _ w b hb (fun _ => rfl), forward_eq_def cfg n n d c a x w b hb (fun _ => rfl),
+    specForward_renumber hp]
+  rfl
+
+/-- non-vacuity: the rotation `0 → 1 → 2 → 0` is a renumbering of 3 nodes -/
+example : IsRenumbering 3 (fun i => (i + 1) % 3) := by
+  unfold IsRenumbering
+  decide
+
+/-- **activation gradients.** For every activation (identity, ReLU, sigmoid, soft-max), every signal and direction,
+`activation.gradient(signal, direction)[i, k]` is the derivative of `Σ_l direction[i, l] · output(signal)[i, l]` with
+respect to `signal[i, k]`, i.e. the `(i, k)` entry of the Jacobian-transpose product (ReLU: away from the kink 0). -/
+theorem activation_gradient_is_jacobian_transpose (act : Act) (n c : Nat) (s dd : Nat → Nat → ℝ) (i k : Nat)
+    (hi : i < n) (hk : k < c) (hrelu : act = .relu → s i k ≠ 0) :
+    ∃ G, actGradient act (mk' n c s) (mk' n c dd) = .ok G ∧
+      HasDerivAt (fun t => ∑ l ∈ range c, dd i l * (actOutput act (mk' n c (updRow s i k t))).get i l)
+        (G.get i k) (s i k) := by
+  refine ⟨_, actGradient_eq_spec act n c s dd, ?_⟩
+  have h := actGradient_hasDerivAt act n c s dd i k hi hk hrelu
+  have hfun : (fun t => ∑ l ∈ range c, dd i l * (actOutput act (mk' n c (updRow s i k t))).get i l) =
+      fun t => ∑ l ∈ range c, dd i l * Spec.actFn act c (Function.update (s i) k t) l := by
+    funext t
+    apply Finset.sum_congr rfl
+    intro l hl
+    rw [actOutput_mk', get_mk'_of_lt _ hi (mem_range.mp hl), updRow_self]
+  rw [hfun]
+  exact h
+
+/-- non-vacuity of the ReLU side condition -/
+example : (Act.relu = .relu → (fun (_ _ : Nat) => (1 : ℝ)) 0 0 ≠ 0) := fun _ => one_ne_zero
+
+/-- the Jacobian used by `Jᵀ d` is entry by entry the partial derivative of the activation (row-wise) -/
+theorem jacobian_entries (act : Act) (c : Nat) (s : Nat → ℝ) (l k : Nat) (hk : k < c)
+    (hrelu : act = .relu → s k ≠ 0) :
+    HasDerivAt (fun t => Spec.actFn act c (Function.update s k t) l) (Spec.jac act c s l k) (s k) :=
+  jac_hasDerivAt act c s l k hk hrelu
+
+/-- **cross-entropy gradient.** `CrossEntropy.loss_gradient(signal, labels)[i, k]` equals `n` times the derivative of
+the mean cross-entropy with respect to `signal[i, k]` (= soft-max minus one-hot), for every signal, every number of
+channels and every label vector inside the channels. -/
+theorem ce_gradient_is_n_times_derivative (n c : Nat) (s : Nat → Nat → ℝ) (labels : List Nat) (hn : 0 < n)
+    (hlen : labels.length = n) (hlab : ∀ y ∈ labels, y < c) (i k : Nat) (hi : i < n) (hk : k < c) :
+    ∃ G, ceLossGradient (mk' n c s) labels = .ok G ∧
+      HasDerivAt (fun t => (n : ℝ) * Spec.ceLoss (mk' n c (updRow s i k t)) labels) (G.get i k) (s i k) := by
+  refine ⟨_, ceLossGradient_eq_spec n c s labels hlen hlab, ?_⟩
+  exact ceLoss_hasDerivAt n c s labels hn (fun j hj => getD_mem_lt labels c hlab j (hlen ▸ hj)) i k hi hk
+
+/-- non-vacuity: two samples, three channels, labels `[2, 0]` -/
+example : (0 < 2) ∧ ([2, 0] : List Nat).length = 2 ∧ ∀ y ∈ ([2, 0] : List Nat), y < 3 := by decide
+
+/-- the value `CrossEntropy.loss` returns is that mean cross-entropy wherever the code's numerical clipping
+(`[1e-10, 1 − 1e-10]`) is inactive on the label probabilities -/
+theorem ce_loss_is_mean (n c : Nat) (s : Nat → Nat → ℝ) (labels : List Nat) (hlen : labels.length = n)
+    (hlab : ∀ y ∈ labels, y < c)
+    (hclip : ∀ i, i < n → (eps10 : ℝ) ≤ Spec.softmaxFn c (s i) (labels.getD i 0) ∧
+      Spec.softmaxFn c (s i) (labels.getD i 0) ≤ 1 - eps10) :
+    ceLoss (mk' n c s) labels = .ok (Spec.ceLoss (mk' n c s) labels) :=
+  ceLoss_eq_spec n c s labels hlen hlab hclip
+
+/-- **binary cross-entropy gradient, several channels** (the repaired code): `loss_gradient[i, k]` is `n` times the
+derivative of the mean one-versus-rest binary cross-entropy, `σ(signal[i, k]) − 1{labels[i] = k}`. -/
+theorem bce_gradient_is_n_times_derivative (n c : Nat) (hc : c ≠ 1) (s : Nat → Nat → ℝ) (labels : List Nat)
+    (hn : 0 < n) (hlen : labels.length = n) (hlab : ∀ y ∈ labels, y < c) (i k : Nat) (hi : i < n) (hk : k < c) :
+    ∃ G, bceLossGradient (mk' n c s) labels = .ok G ∧
+      HasDerivAt (fun t => (n : ℝ) * Spec.bceLoss (mk' n c (updRow s i k t)) labels) (G.get i k) (s i k) := by
+  refine ⟨_, bceLossGradient_eq_spec_several n c hc s labels hlen hlab, ?_⟩
+  exact bceLoss_hasDerivAt n c s labels hn i k hi hk
+
+/-- **binary cross-entropy gradient, one channel**, binary labels: `σ(signal[i, 0]) − labels[i]` -/
+theorem bce_gradient_one_channel (n : Nat) (s : Nat → Nat → ℝ) (labels : List Nat)
+    (hn : 0 < n) (hlen : labels.length = n) (hlab : ∀ y ∈ labels, y ≤ 1) (i : Nat) (hi : i < n) :
+    ∃ G, bceLossGradient (mk' n 1 s) labels = .ok G ∧
+      HasDerivAt (fun t => (n : ℝ) * Spec.bceLoss (mk' n 1 (updRow s i 0 t)) labels) (G.get i 0) (s i 0) := by
+  refine ⟨_, bceLossGradient_eq_spec_one n s labels hlen hlab, ?_⟩
+  exact bceLoss_hasDerivAt n 1 s labels hn i 0 hi (by decide)
+
+/-- **F14 on the pinned tree** (kept as the witness of the repaired defect): the formula `(probs.T − labels).T` that
+`BinaryCrossEntropy.loss_gradient` used for any number of channels is not the gradient with two channels. -/
+theorem bce_pinned_formula_is_not_the_gradient :
+    ∃ G, bceLossGradientPinned (mk' 1 2 fun _ _ => (0 : ℝ)) [1] = .ok G ∧
+      G.get 0 0 ≠ (Spec.bceGradient (mk' 1 2 fun _ _ => (0 : ℝ)) [1]).get 0 0 :=
+  bce_pinned_not_gradient
+
+/-- **soft-max output rows sum to 1** (output of a soft-max / cross-entropy layer, at least one channel) -/
+theorem softmax_rows_sum_one (n c : Nat) (hc : 0 < c) (e : Nat → Nat → ℝ) (i : Nat) (hi : i < n) :
+    ∑ k ∈ range c, (actOutput .softmax (mk' n c e)).get i k = 1 := by
+  rw [actOutput_mk']
+  have : ∀ k ∈ range c, (mk' n c fun i k => Spec.actFn .softmax c (e i) k).get i k = Spec.softmaxFn c (e i) k :=
+    fun k hk => get_mk'_of_lt _ hi (mem_range.mp hk)
+  rw [Finset.sum_congr rfl this]
+  exact softmaxFn_sum_one c hc (e i)
+
+/-- scipy's shifted soft-max (what the model executes) is the textbook soft-max -/
+theorem softmax_shift_invariant (l : List ℝ) :
+    softmaxRow l = l.map fun x => Real.exp x / (l.map Real.exp).sum :=
+  softmaxRow_eq l
+
+/-- **`predict_proba` returns distributions**: for the output of a cross-entropy (soft-max) or binary
+cross-entropy (sigmoid) last layer with `c ≥ 1` channels, `predict_proba` has one row per node, `max(c, 2)` columns,
+non-negative entries and rows summing to 1. -/
+theorem predict_proba_rows_sum_one (loss : LossKind) (n c : Nat) (hc : 0 < c) (e : Nat → Nat → ℝ) (i : Nat)
+    (hi : i < n) :
+    (predictProba loss (actOutput (actOfLoss loss) (mk' n c e))).r = n ∧
+    (predictProba loss (actOutput (actOfLoss loss) (mk' n c e))).c = (if c = 1 then 2 else c) ∧
+    (∀ k, 0 ≤ (predictProba loss (actOutput (actOfLoss loss) (mk' n c e))).get i k) ∧
+    ∑ k ∈ range (if c = 1 then 2 else c), (predictProba loss (actOutput (actOfLoss loss) (mk' n c e))).get i k = 1 :=
+  predictProba_distribution loss n c hc e i hi
+
+/-- **prediction_range.** `_compute_predictions` returns one label per node; with one channel it is the 0.5
+threshold (a label in {0, 1}), otherwise the first maximiser of the output row, below the number of channels. -/
+theorem prediction_range (n c : Nat) (hc : 0 < c) (o : Nat → Nat → ℝ) :
+    ∃ labs, computePredictions (mk' n c o) = .ok labs ∧ labs.length = n ∧
+      ∀ i, i < n → Spec.predictionOk c (o i) (labs.getD i 0) = true ∧ labs.getD i 0 < max c 2 :=
+  computePredictions_spec n c hc o
+
+/-- with no channel at all numpy's arg-max raises, and so does the model -/
+theorem prediction_no_channel (n : Nat) (o : Nat → Nat → ℝ) :
+    computePredictions (mk' n 0 o) = .error .valueError := by
+  unfold computePredictions
+  simp
+
+/-- **sampler_subset.** Each row of the sampled adjacency is a sublist of the stored row, of size
+`min(deg, sample_size)`, for every legal draw of `np.random.choice`. -/
+theorem sampler_subset (indptr indices : List Nat) (nRow : Nat) (choice : List (List Nat)) (k i : Nat)
+    (hi : i < nRow)
+    (hch : choiceOk (indptr.getD (i+1) 0 - indptr.getD i 0) k (choice.getD i []) = true) :
+    ((sampleRows indptr indices nRow choice).getD i []).Sublist
+        ((List.range (indptr.getD (i+1) 0 - indptr.getD i 0)).map fun p => indices.getD (indptr.getD i 0 + p) 0) ∧
+      ((sampleRows indptr indices nRow choice).getD i []).length =
+        min (indptr.getD (i+1) 0 - indptr.getD i 0) k :=
+  sampleRows_subset indptr indices nRow choice k i hi hch
+
+/-- non-vacuity: degree 3, sample size 2, positions `[2, 0]` -/
+example : choiceOk 3 2 [2, 0] = true := by decide
 
 end SkNet.C19
